@@ -102,8 +102,9 @@ def visible_params(fd):
     return sorted(ps, key=lambda p: p.position)
 
 
-def sweep_cases(ctx, engine):
-    """(name, fd, target index, [arg spec]) for every parameter that accepts a probe iterator"""
+def sweep_cases(ctx, engine, probes=None):
+    """(name, fd, target index, [arg spec]) for every parameter that accepts a probe iterator (or one of the values made by
+    the `probes` factories)"""
     from yaql.language import yaqltypes
     import datetime
     cands = CANDS + [datetime.datetime(2020, 1, 1), datetime.timedelta(1)]
@@ -114,10 +115,12 @@ def sweep_cases(ctx, engine):
         for ti, tp in enumerate(ps):
             if isinstance(tp.value_type, yaqltypes.LazyParameterType):
                 continue
-            try:
-                ok = tp.value_type.check(iter(()), ctx, engine)
-            except Exception:
-                ok = False
+            ok = False
+            for mk in (probes or [lambda: iter(())]):
+                try:
+                    ok = ok or tp.value_type.check(mk(), ctx, engine)
+                except Exception:
+                    pass
             if not ok:
                 continue
             # declared type says "any object": a sequence is accepted but not as a sequence parameter -> still swept, marked generic
